@@ -767,7 +767,7 @@ Qed.
 Lemma prim_flag c t l sb u g rc c' r :
   Inv c -> c_poisoned c = false -> wt_flag_misbehaving_tower c t l sb u g rc = (c', r) ->
   Inv c' /\ c_retriers c' = c_retriers c /\ healthy_or_abort c' r /\
-  ((c_db c' = c_db c /\ forall k, stat c' k = stat c k) \/
+  ((c_db c' = c_db c /\ (forall k, stat c' k = stat c k) /\ r <> ROk) \/
    (r = ROk /\ c_poisoned c' = false /\ knownc c t /\
     (forall k, stat c' k = if N.eqb k t then Some Misbehaving else stat c k) /\
     tbl (c_db c') T_appointment_receipts = tbl (c_db c) T_appointment_receipts ++ [[l; t; sb; u; g]] /\
@@ -777,7 +777,7 @@ Proof.
   intros HI Hp E. pose proof (Inv_flag_misbehaving c t l sb u g rc HI Hp) as HI'. rewrite E in HI'. cbn [fst] in HI'.
   split; [exact HI'|]. revert E. unfold wt_flag_misbehaving_tower.
   destruct (aget (c_towers c) t) as [su|] eqn:Et.
-  2:{ intros E. inversion E. subst. split; [reflexivity|]. split; [exact Hp|]. left. split; reflexivity. }
+  2:{ intros E. inversion E. subst. split; [reflexivity|]. split; [exact Hp|]. left. repeat split; discriminate. }
   destruct (dbm_store_misbehaving_proof (c_db c) t l sb u g rc) as [d'|e] eqn:Es; intros E; inversion E; subst; clear E.
   - cbn [c_retriers c_db c_towers c_poisoned with_db with_towers]. split; [reflexivity|]. split; [exact Hp|].
     right. destruct (store_proof_spec _ _ _ _ _ _ _ _ (proj1 HI) Es) as [_ Hfr].
@@ -786,7 +786,14 @@ Proof.
     + unfold knownc, amem. rewrite Et. reflexivity.
     + intros k. unfold stat. cbn [c_towers with_db with_towers]. rewrite aget_aset. destruct (N.eqb k t); reflexivity.
   - cbn [c_retriers c_db c_towers c_poisoned poison]. split; [reflexivity|]. split; [reflexivity|].
-    left. split; reflexivity.
+    left. repeat split; discriminate.
+Qed.
+
+Lemma flag_result c t l sb u g rc : knownc c t ->
+  snd (wt_flag_misbehaving_tower c t l sb u g rc) = ROk \/ exists st, snd (wt_flag_misbehaving_tower c t l sb u g rc) = RAbort st.
+Proof.
+  unfold knownc, amem, wt_flag_misbehaving_tower. destruct (aget (c_towers c) t); [|discriminate]. intros _.
+  destruct (dbm_store_misbehaving_proof (c_db c) t l sb u g rc); [left|right; eexists]; reflexivity.
 Qed.
 
 Lemma prim_set_status c t st :
@@ -1311,4 +1318,306 @@ Proof.
     intros _. split; destruct send; try (unfold send_to_retrier; dmatch); assumption.
   - (* the store aborted *)
     split; [exact HF2|]. split; [reflexivity|]. split; [exact Hg|]. split; [exact Hst|discriminate].
+Qed.
+
+Lemma DurInv_add d d' due t l (kind : nat) :
+  DbInv d' ->
+  (forall k x, Rrow d' k x <-> Rrow d k x \/ (kind = 0%nat /\ k = t /\ x = l)) ->
+  (forall k x, Prow d' k x <-> Prow d k x \/ (kind = 1%nat /\ k = t /\ x = l)) ->
+  (forall k x, Irow d' k x <-> Irow d k x \/ (kind = 2%nat /\ k = t /\ x = l)) ->
+  (forall k, Mrow d' k <-> Mrow d k) -> (forall k, Trow d' k <-> Trow d k) ->
+  (~ Mrow d t -> ~ Rrow d t l /\ ~ Prow d t l /\ ~ Irow d t l) ->
+  DurInv d due -> DurInv d' due /\ grows d d'.
+Proof.
+  intros HD ER EP EI EM ET Hnone [_ [U E0]]. split.
+  - split; [exact HD|]. split.
+    + intros k x Hm. unfold excl3. rewrite !ER, !EP, !EI. assert (Hm0 : ~ Mrow d k) by (intros H; apply Hm, EM, H).
+      destruct (U k x Hm0) as [A [B C]].
+      repeat split; intros [[H1|[K1 [-> ->]]] [H2|[K2 [Ht Hx]]]]; try tauto; try lia; subst; destruct (Hnone Hm0) as [N1 [N2 N3]]; tauto.
+    + intros k x Hin. destruct (E0 k x Hin) as [A B]. split; [apply ET, A|]. intros Hm. rewrite ER, EP, EI.
+      assert (Hm0 : ~ Mrow d k) by (intros H; apply Hm, EM, H). specialize (B Hm0). tauto.
+  - repeat split; intros; try (apply ER; tauto); try (apply EP; tauto); try (apply EI; tauto); try (apply EM; tauto); apply ET; tauto.
+Qed.
+
+Lemma add_receipt_result c t l slots sb u g : knownc c t ->
+  snd (wt_add_appointment_receipt c t l slots sb u g) = ROk \/ exists st, snd (wt_add_appointment_receipt c t l slots sb u g) = RAbort st.
+Proof.
+  unfold knownc, amem, wt_add_appointment_receipt. destruct (aget (c_towers c) t); [|discriminate]. intros _.
+  destruct (dbm_load_appointment_receipt (c_db c) t l); [left; reflexivity|].
+  destruct (dbm_store_appointment_receipt (c_db c) t l slots sb u g); [left|right; eexists]; reflexivity.
+Qed.
+Lemma add_invalid_result c t l b dl : knownc c t ->
+  snd (wt_add_invalid_appointment c t l b dl) = ROk \/ exists st, snd (wt_add_invalid_appointment c t l b dl) = RAbort st.
+Proof.
+  unfold knownc, amem, wt_add_invalid_appointment. destruct (aget (c_towers c) t); [|discriminate]. intros _.
+  destruct (memN l (su_invalid s)); [left; reflexivity|]. destruct (dbm_store_invalid_appointment (c_db c) t l b dl); [left|right; eexists]; reflexivity.
+Qed.
+
+(* the volatile facts survive a primitive that keeps the statuses and only grows the pending rows *)
+Lemma FInv_client_grow s c' :
+  FInv s -> poisoned s = false -> Inv c' -> DurInv (c_db c') (f_due s) ->
+  (forall k, stat c' k = stat (f_c s) k) -> c_retriers c' = c_retriers (f_c s) ->
+  (forall k x, Prow (c_db (f_c s)) k x -> Prow (c_db c') k x) -> (forall k, Mrow (c_db (f_c s)) k -> Mrow (c_db c') k) ->
+  FInv (set_c s c').
+Proof.
+  intros HF Hp HI' HD' Hst Hret HP HM. pose proof HF as [_ [_ [HV _]]]. destruct (HV Hp) as [V1 [V2 _]].
+  apply FInv_client; [exact HF|exact HI'|exact HD'|]. intros _. split; [exact Hp|]. split; [|split; [|exact Hret]].
+  - intros k Hk. apply HM, V1. rewrite <- Hst. exact Hk.
+  - intros k Hk x Hx. apply HP, V2; [apply (knownc_stat _ _ Hst), Hk|exact Hx].
+Qed.
+
+Lemma knownc_set_status c t st k : knownc (wt_set_tower_status c t st) k <-> knownc c k.
+Proof.
+  unfold knownc, amem, wt_set_tower_status. destruct (aget (c_towers c) t) as [su|] eqn:E; [|tauto].
+  cbn [c_towers with_towers]. rewrite aget_aset. destruct (N.eqb k t) eqn:Ek; [|tauto]. apply N.eqb_eq in Ek. subst. rewrite E. tauto.
+Qed.
+
+Lemma FInv_set_status s t st :
+  FInv s -> poisoned s = false -> st <> Misbehaving -> FInv (set_c s (wt_set_tower_status (f_c s) t st)).
+Proof.
+  intros HF Hp Hst. pose proof HF as [HI [HD [HV HT]]]. destruct (HV Hp) as [V1 [V2 _]].
+  destruct (prim_set_status (f_c s) t st HI) as [HI' [Ed [Hret [Hpo [Hs _]]]]].
+  apply FInv_client; [exact HF|exact HI'|rewrite Ed; exact HD|]. intros _. split; [exact Hp|]. split; [|split; [|exact Hret]].
+  - intros k Hk. rewrite Ed. apply V1. rewrite Hs in Hk. destruct (N.eqb k t); [|exact Hk].
+    destruct (stat (f_c s) t); cbn in Hk; [inversion Hk; congruence|discriminate].
+  - intros k Hk x Hx. rewrite Ed. apply V2; [apply (knownc_set_status _ t st k), Hk|exact Hx].
+Qed.
+
+Lemma FInv_rev_tower s l t st rp s' o :
+  FInv s -> knownc (f_c s) t -> (st = Misbehaving -> Mrow (c_db (f_c s)) t) ->
+  rev_tower s l t st rp = (s', o) ->
+  FInv s' /\ f_due s' = f_due s /\ grows (c_db (f_c s)) (c_db (f_c s')) /\ (forall k, knownc (f_c s') k <-> knownc (f_c s) k) /\
+  (o = None -> poisoned s' = false /\ Trow (c_db (f_c s')) t /\
+               (~ Mrow (c_db (f_c s')) t -> Rrow (c_db (f_c s')) t l \/ Prow (c_db (f_c s')) t l \/ Irow (c_db (f_c s')) t l)).
+Proof.
+  intros HF Hk Hsnap. unfold rev_tower. destruct (poisoned s) eqn:Hp.
+  { intros E. inversion E. subst. split; [exact HF|]. split; [reflexivity|]. split; [apply grows_refl|]. split; [tauto|]. intros H0; discriminate H0. }
+  pose proof HF as [HI [HD [HV HT]]]. destruct (HV Hp) as [V1 [V2 [V3 [V4 V5]]]].
+  pose proof (proj1 (known_iff_Trow _ t HI Hp) Hk) as HTr.
+  pose proof (has_appointment_iff _ t l HI Hp Hk) as Hha.
+  destruct (wt_has_appointment (f_c s) t l) eqn:Eha.
+  { intros E. inversion E. subst. split; [exact HF|]. split; [reflexivity|]. split; [apply grows_refl|]. split; [tauto|].
+    intros _. split; [exact Hp|]. split; [exact HTr|]. intros _. apply Hha. reflexivity. }
+  assert (Hnone : ~ Rrow (c_db (f_c s)) t l /\ ~ Prow (c_db (f_c s)) t l /\ ~ Irow (c_db (f_c s)) t l).
+  { repeat split; intros H; assert (false = true) by (apply Hha; tauto); discriminate. }
+  destruct Hnone as [NR [NP NI]].
+  set (s1 := log_req s (ReqAdd t l)).
+  assert (HF1 : FInv s1) by (apply (FInv_core s); auto).
+  destruct (is_reachable st) eqn:Ereach.
+  - destruct rp as [slots| | | | | | |].
+    + (* accepted *)
+      destruct (wt_add_appointment_receipt (f_c s1) t l slots START_BLOCK USER_SIG SIG_TOWER) as [c2 r] eqn:E.
+      destruct (prim_add_receipt _ _ _ _ _ _ _ _ _ HI Hp E) as [HI' [Hret [Hst [Hh [Heff Hrow]]]]].
+      pose proof (add_receipt_result (f_c s1) t l slots START_BLOCK USER_SIG SIG_TOWER Hk) as Hres. rewrite E in Hres. cbn [snd] in Hres.
+      assert (Hdb : DurInv (c_db c2) (f_due s) /\ grows (c_db (f_c s)) (c_db c2)).
+      { destruct Heff as [Ed|[_ [_ [_ [_ [T5 [T0 Hfr]]]]]]]; [rewrite Ed; split; [exact HD|apply grows_refl]|].
+        apply (DurInv_add _ _ _ t l 0); try exact HD; try apply HI'.
+        - intros k x. rewrite (Rrow_app _ _ _ _ _ _ _ k x T5). tauto.
+        - intros k x. rewrite (Prow_ext _ _ k x (Hfr T_pending_appointments ltac:(discriminate) ltac:(discriminate))). split; [tauto|intros [H|[H _]]; [exact H|discriminate]].
+        - intros k x. rewrite (Irow_ext _ _ k x (Hfr T_invalid_appointments ltac:(discriminate) ltac:(discriminate))). split; [tauto|intros [H|[H _]]; [exact H|discriminate]].
+        - intros k. apply Mrow_ext, Hfr; discriminate.
+        - intros k. apply (Trow_map _ _ _ k T0 (upd_slots_key t slots)).
+        - tauto. }
+      destruct Hdb as [HD2 Hg].
+      assert (HF2 : FInv (set_c s1 c2)).
+      { apply FInv_client_grow; [exact HF1|exact Hp|exact HI'|exact HD2|exact Hst|exact Hret|apply Hg|apply Hg]. }
+      intros E2. inversion E2. subst. clear E2.
+      split; [exact HF2|]. split; [reflexivity|]. split; [exact Hg|]. split; [apply (knownc_stat _ _ Hst)|].
+      intros Ho. destruct Hres as [->|[st0 ->]]; [|discriminate]. split; [exact Hh|]. split; [apply Hg, HTr|].
+      intros _. left. apply Hrow; auto.
+    + (* a signature of another key: the tower is flagged *)
+      destruct (wt_flag_misbehaving_tower (f_c s1) t l START_BLOCK USER_SIG SIG_OTHER (other_id t)) as [c2 r] eqn:E.
+      destruct (prim_flag _ _ _ _ _ _ _ _ _ HI Hp E) as [HI' [Hret [Hh Heff]]].
+      intros E2. inversion E2. subst. clear E2.
+      destruct Heff as [[Ed [Hst Hne]]|[-> [Hp2 [_ [Hst [T5 [T6 Hfr]]]]]]].
+      * assert (HF2 : FInv (set_c s1 c2)).
+        { apply FInv_client_grow; [exact HF1|exact Hp|exact HI'|rewrite Ed; exact HD|exact Hst|exact Hret|intros k x H; rewrite Ed; exact H|intros k H; rewrite Ed; exact H]. }
+        split; [exact HF2|]. split; [reflexivity|]. split; [apply grows_eq, Ed|]. split; [apply (knownc_stat _ _ Hst)|].
+        intros Ho. exfalso. pose proof (flag_result (f_c s1) t l START_BLOCK USER_SIG SIG_OTHER (other_id t) Hk) as Hr.
+        rewrite E in Hr. cbn [snd] in Hr. destruct Hr as [->|[st0 ->]]; [apply Hne; reflexivity|discriminate Ho].
+      * assert (ER : forall k x, Rrow (c_db c2) k x <-> Rrow (c_db (f_c s)) k x \/ (k = t /\ x = l)) by (intros; apply (Rrow_app _ _ _ _ _ _ _ k x T5)).
+        assert (EPr : forall k x, Prow (c_db c2) k x <-> Prow (c_db (f_c s)) k x) by (intros; apply Prow_ext, Hfr; discriminate).
+        assert (EI : forall k x, Irow (c_db c2) k x <-> Irow (c_db (f_c s)) k x) by (intros; apply Irow_ext, Hfr; discriminate).
+        assert (EM : forall k, Mrow (c_db c2) k <-> Mrow (c_db (f_c s)) k \/ k = t) by (intros; apply (Mrow_app _ _ _ _ _ k T6)).
+        assert (ET : forall k, Trow (c_db c2) k <-> Trow (c_db (f_c s)) k) by (intros; apply Trow_ext, Hfr; discriminate).
+        assert (Hg : grows (c_db (f_c s)) (c_db c2)).
+        { split; [intros k x H; apply ER; tauto|]. split; [intros k x H; apply EPr; tauto|]. split; [intros k x H; apply EI; tauto|].
+          split; [intros k H; apply EM; tauto|]. intros k. symmetry. apply ET. }
+        assert (HD2 : DurInv (c_db c2) (f_due s)).
+        { destruct HD as [_ [U E0]]. split; [apply HI'|]. split.
+          - intros k x Hm. assert (Hkt : k <> t) by (intros ->; apply Hm, EM; tauto).
+            assert (Hm0 : ~ Mrow (c_db (f_c s)) k) by (intros H; apply Hm, EM; tauto).
+            unfold excl3. rewrite !ER, !EPr, !EI. destruct (U k x Hm0) as [A [B C]]. tauto.
+          - intros k x Hin. destruct (E0 k x Hin) as [A B]. split; [apply ET, A|]. intros Hm.
+            assert (Hm0 : ~ Mrow (c_db (f_c s)) k) by (intros H; apply Hm, EM; tauto). rewrite ER, EPr, EI. specialize (B Hm0). tauto. }
+        assert (HF2 : FInv (set_c s1 c2)).
+        { apply FInv_client; [exact HF1|exact HI'|exact HD2|]. intros _. split; [exact Hp|]. split; [|split; [|exact Hret]].
+          - intros k Hk'. apply EM. rewrite Hst in Hk'. destruct (N.eqb k t) eqn:Ekt; [right; apply N.eqb_eq; exact Ekt|left; apply V1, Hk'].
+          - intros k Hk' x Hx. apply EPr. apply V2; [|exact Hx]. unfold knownc, amem in *. specialize (Hst k). unfold stat in Hst.
+            change (f_c s1) with (f_c s) in *.
+            destruct (N.eqb k t) eqn:Ekt; [apply N.eqb_eq in Ekt; subst k; exact Hk|].
+            destruct (aget (c_towers c2) k), (aget (c_towers (f_c s)) k); cbn in Hst; try discriminate; auto. }
+        split; [exact HF2|]. split; [reflexivity|]. split; [exact Hg|]. split.
+        { intros k. unfold knownc, amem. specialize (Hst k). unfold stat in Hst. change (f_c s1) with (f_c s) in *. cbn [f_c set_c wr_c]. destruct (N.eqb k t) eqn:Ekt.
+          - apply N.eqb_eq in Ekt. subst k. unfold knownc, amem in Hk. destruct (aget (c_towers c2) t), (aget (c_towers (f_c s)) t); cbn in Hst; try discriminate; intuition congruence.
+          - destruct (aget (c_towers c2) k), (aget (c_towers (f_c s)) k); cbn in Hst; try discriminate; intuition congruence. }
+        intros _. split; [exact Hp2|]. split; [apply ET, HTr|]. intros Hm. exfalso. apply Hm, EM. tauto.
+    + (* undecodable signature: the request failed: pending, status, retrier *)
+      intros E. set (s2 := set_c s1 (wt_set_tower_status (f_c s1) t TemporaryUnreachable)) in *.
+      assert (HF2 : FInv s2) by (apply FInv_set_status; [exact HF1|exact Hp|discriminate]).
+      assert (Ed2 : c_db (f_c s2) = c_db (f_c s)) by (unfold s2, wt_set_tower_status; cbn [f_c set_c]; destruct (aget (c_towers (f_c s1)) t); reflexivity).
+      assert (Hp2 : poisoned s2 = false) by (unfold s2, poisoned, wt_set_tower_status; cbn [f_c set_c]; destruct (aget (c_towers (f_c s1)) t); exact Hp).
+      assert (Hk2 : knownc (f_c s2) t) by (apply knownc_set_status; exact Hk).
+      destruct (FInv_rev_pend s2 l t true s' o HF2 Hp2 Hk2) as [HF' [Hdue [Hg [Hst' Hok]]]]; try (rewrite Ed2; tauto); [exact E|].
+      split; [exact HF'|]. split; [exact Hdue|]. split; [rewrite <- Ed2; exact Hg|]. split.
+      { intros k. rewrite (knownc_stat _ _ Hst' k). apply knownc_set_status. }
+      intros Ho. destruct (Hok Ho) as [Hrow Hpo]. split; [exact Hpo|]. split; [apply Hg; rewrite Ed2; exact HTr|]. intros _. right. left. exact Hrow.
+    + (* connection error: the request failed: pending, status, retrier *)
+      intros E. set (s2 := set_c s1 (wt_set_tower_status (f_c s1) t TemporaryUnreachable)) in *.
+      assert (HF2 : FInv s2) by (apply FInv_set_status; [exact HF1|exact Hp|discriminate]).
+      assert (Ed2 : c_db (f_c s2) = c_db (f_c s)) by (unfold s2, wt_set_tower_status; cbn [f_c set_c]; destruct (aget (c_towers (f_c s1)) t); reflexivity).
+      assert (Hp2 : poisoned s2 = false) by (unfold s2, poisoned, wt_set_tower_status; cbn [f_c set_c]; destruct (aget (c_towers (f_c s1)) t); exact Hp).
+      assert (Hk2 : knownc (f_c s2) t) by (apply knownc_set_status; exact Hk).
+      destruct (FInv_rev_pend s2 l t true s' o HF2 Hp2 Hk2) as [HF' [Hdue [Hg [Hst' Hok]]]]; try (rewrite Ed2; tauto); [exact E|].
+      split; [exact HF'|]. split; [exact Hdue|]. split; [rewrite <- Ed2; exact Hg|]. split.
+      { intros k. rewrite (knownc_stat _ _ Hst' k). apply knownc_set_status. }
+      intros Ho. destruct (Hok Ho) as [Hrow Hpo]. split; [exact Hpo|]. split; [apply Hg; rewrite Ed2; exact HTr|]. intros _. right. left. exact Hrow.
+    + (* undecodable body: the request failed: pending, status, retrier *)
+      intros E. set (s2 := set_c s1 (wt_set_tower_status (f_c s1) t TemporaryUnreachable)) in *.
+      assert (HF2 : FInv s2) by (apply FInv_set_status; [exact HF1|exact Hp|discriminate]).
+      assert (Ed2 : c_db (f_c s2) = c_db (f_c s)) by (unfold s2, wt_set_tower_status; cbn [f_c set_c]; destruct (aget (c_towers (f_c s1)) t); reflexivity).
+      assert (Hp2 : poisoned s2 = false) by (unfold s2, poisoned, wt_set_tower_status; cbn [f_c set_c]; destruct (aget (c_towers (f_c s1)) t); exact Hp).
+      assert (Hk2 : knownc (f_c s2) t) by (apply knownc_set_status; exact Hk).
+      destruct (FInv_rev_pend s2 l t true s' o HF2 Hp2 Hk2) as [HF' [Hdue [Hg [Hst' Hok]]]]; try (rewrite Ed2; tauto); [exact E|].
+      split; [exact HF'|]. split; [exact Hdue|]. split; [rewrite <- Ed2; exact Hg|]. split.
+      { intros k. rewrite (knownc_stat _ _ Hst' k). apply knownc_set_status. }
+      intros Ho. destruct (Hok Ho) as [Hrow Hpo]. split; [exact Hpo|]. split; [apply Hg; rewrite Ed2; exact HTr|]. intros _. right. left. exact Hrow.
+    + (* unexpected: the request failed: pending, status, retrier *)
+      intros E. set (s2 := set_c s1 (wt_set_tower_status (f_c s1) t TemporaryUnreachable)) in *.
+      assert (HF2 : FInv s2) by (apply FInv_set_status; [exact HF1|exact Hp|discriminate]).
+      assert (Ed2 : c_db (f_c s2) = c_db (f_c s)) by (unfold s2, wt_set_tower_status; cbn [f_c set_c]; destruct (aget (c_towers (f_c s1)) t); reflexivity).
+      assert (Hp2 : poisoned s2 = false) by (unfold s2, poisoned, wt_set_tower_status; cbn [f_c set_c]; destruct (aget (c_towers (f_c s1)) t); exact Hp).
+      assert (Hk2 : knownc (f_c s2) t) by (apply knownc_set_status; exact Hk).
+      destruct (FInv_rev_pend s2 l t true s' o HF2 Hp2 Hk2) as [HF' [Hdue [Hg [Hst' Hok]]]]; try (rewrite Ed2; tauto); [exact E|].
+      split; [exact HF'|]. split; [exact Hdue|]. split; [rewrite <- Ed2; exact Hg|]. split.
+      { intros k. rewrite (knownc_stat _ _ Hst' k). apply knownc_set_status. }
+      intros Ho. destruct (Hok Ho) as [Hrow Hpo]. split; [exact Hpo|]. split; [apply Hg; rewrite Ed2; exact HTr|]. intros _. right. left. exact Hrow.
+    + (* subscription error: the request failed: pending, status, retrier *)
+      intros E. set (s2 := set_c s1 (wt_set_tower_status (f_c s1) t SubscriptionError)) in *.
+      assert (HF2 : FInv s2) by (apply FInv_set_status; [exact HF1|exact Hp|discriminate]).
+      assert (Ed2 : c_db (f_c s2) = c_db (f_c s)) by (unfold s2, wt_set_tower_status; cbn [f_c set_c]; destruct (aget (c_towers (f_c s1)) t); reflexivity).
+      assert (Hp2 : poisoned s2 = false) by (unfold s2, poisoned, wt_set_tower_status; cbn [f_c set_c]; destruct (aget (c_towers (f_c s1)) t); exact Hp).
+      assert (Hk2 : knownc (f_c s2) t) by (apply knownc_set_status; exact Hk).
+      destruct (FInv_rev_pend s2 l t true s' o HF2 Hp2 Hk2) as [HF' [Hdue [Hg [Hst' Hok]]]]; try (rewrite Ed2; tauto); [exact E|].
+      split; [exact HF'|]. split; [exact Hdue|]. split; [rewrite <- Ed2; exact Hg|]. split.
+      { intros k. rewrite (knownc_stat _ _ Hst' k). apply knownc_set_status. }
+      intros Ho. destruct (Hok Ho) as [Hrow Hpo]. split; [exact Hpo|]. split; [apply Hg; rewrite Ed2; exact HTr|]. intros _. right. left. exact Hrow.
+    + (* rejected: invalid *)
+      destruct (wt_add_invalid_appointment (f_c s1) t l BLOB DELAY) as [c2 r] eqn:E.
+      destruct (prim_add_invalid _ _ _ _ _ _ _ HI Hp E) as [HI' [Hret [Hst [Hh [Heff Hrow]]]]].
+      pose proof (add_invalid_result (f_c s1) t l BLOB DELAY Hk) as Hres. rewrite E in Hres. cbn [snd] in Hres.
+      assert (Hdb : DurInv (c_db c2) (f_due s) /\ grows (c_db (f_c s)) (c_db c2)).
+      { destruct Heff as [Ed|[_ [_ [_ [T3 Hfr]]]]]; [rewrite Ed; split; [exact HD|apply grows_refl]|].
+        apply (DurInv_add _ _ _ t l 2); try exact HD; try apply HI'.
+        - intros k x. rewrite (Rrow_ext _ _ k x (Hfr T_appointment_receipts ltac:(discriminate) ltac:(discriminate))). split; [tauto|intros [H|[H _]]; [exact H|discriminate]].
+        - intros k x. rewrite (Prow_ext _ _ k x (Hfr T_pending_appointments ltac:(discriminate) ltac:(discriminate))). split; [tauto|intros [H|[H _]]; [exact H|discriminate]].
+        - intros k x. rewrite (Irow_app _ _ _ _ k x T3). tauto.
+        - intros k. apply Mrow_ext, Hfr; discriminate.
+        - intros k. apply Trow_ext, Hfr; discriminate.
+        - tauto. }
+      destruct Hdb as [HD2 Hg].
+      assert (HF2 : FInv (set_c s1 c2)).
+      { apply FInv_client_grow; [exact HF1|exact Hp|exact HI'|exact HD2|exact Hst|exact Hret|apply Hg|apply Hg]. }
+      intros E2. inversion E2. subst. clear E2.
+      split; [exact HF2|]. split; [reflexivity|]. split; [exact Hg|]. split; [apply (knownc_stat _ _ Hst)|].
+      intros Ho. destruct Hres as [->|[st0 ->]]; [|discriminate]. split; [exact Hh|]. split; [apply Hg, HTr|].
+      intros _. right. right. apply Hrow; auto.
+  - destruct (is_misbehaving st) eqn:Emis.
+    + intros E. inversion E. subst. split; [exact HF|]. split; [reflexivity|]. split; [apply grows_refl|]. split; [tauto|].
+      intros _. split; [exact Hp|]. split; [exact HTr|]. intros Hm. exfalso. apply Hm, Hsnap. destruct st; try discriminate. reflexivity.
+    + intros E.
+      destruct (FInv_rev_pend s l t (negb (is_unreachable st)) s' o HF Hp Hk) as [HF' [Hdue [Hg [Hst' Hok]]]]; try tauto.
+      split; [exact HF'|]. split; [exact Hdue|]. split; [exact Hg|]. split; [apply (knownc_stat _ _ Hst')|].
+      intros Ho. destruct (Hok Ho) as [Hrow Hpo]. split; [exact Hpo|]. split; [apply Hg; exact HTr|]. intros _. right. left. exact Hrow.
+Qed.
+
+
+Lemma towers_snapshot_In c t st : In (t, st) (towers_snapshot c) -> stat c t = Some st.
+Proof.
+  unfold towers_snapshot. rewrite in_flat_map. intros [k [_ H]]. unfold stat.
+  destruct (aget (c_towers c) k) as [su|] eqn:E; [|contradiction]. destruct H as [H|[]]. inversion H. subst. rewrite E. reflexivity.
+Qed.
+
+Lemma reorder_towers_In order snap t st : In (t, st) (reorder_towers order snap) -> In (t, st) snap.
+Proof.
+  unfold reorder_towers. intros H. apply in_app_or in H. destruct H as [H|H].
+  - apply in_flat_map in H. destruct H as [k [_ H]]. destruct (aget snap k) as [x|] eqn:E; [|contradiction].
+    destruct H as [H|[]]. inversion H. subst. apply aget_In, E.
+  - apply filter_In in H. tauto.
+Qed.
+
+Definition recd (d : db) (t l : N) : Prop := Trow d t /\ (~ Mrow d t -> Rrow d t l \/ Prow d t l \/ Irow d t l).
+Lemma recd_grows d d' t l : grows d d' -> recd d t l -> recd d' t l.
+Proof.
+  intros [G1 [G2 [G3 [G4 G5]]]] [A B]. split; [apply G5, A|]. intros Hm.
+  assert (Hm0 : ~ Mrow d t) by (intros H; apply Hm, G4, H). destruct (B Hm0) as [H|[H|H]]; auto.
+Qed.
+
+Lemma FInv_rev_loop l replies : forall snap s s' o,
+  FInv s ->
+  (forall t st, In (t, st) snap -> knownc (f_c s) t /\ (st = Misbehaving -> Mrow (c_db (f_c s)) t)) ->
+  rev_loop s l snap replies = (s', o) ->
+  FInv s' /\ f_due s' = f_due s /\ grows (c_db (f_c s)) (c_db (f_c s')) /\
+  (o = None -> forall t st, In (t, st) snap -> recd (c_db (f_c s')) t l).
+Proof.
+  induction snap as [|[t st] snap IH]; intros s s' o HF Hsn E; cbn [rev_loop] in E.
+  - inversion E. subst. split; [exact HF|]. split; [reflexivity|]. split; [apply grows_refl|]. intros _ t st [].
+  - destruct (rev_tower s l t st (reply_for replies t)) as [s1 o1] eqn:E1.
+    destruct (Hsn t st (or_introl eq_refl)) as [Hk Hm].
+    destruct (FInv_rev_tower s l t st _ s1 o1 HF Hk Hm E1) as [HF1 [Hd1 [Hg1 [Hkn1 Hok1]]]].
+    destruct o1 as [site|].
+    + inversion E. subst. split; [exact HF1|]. split; [exact Hd1|]. split; [exact Hg1|]. intros H0; discriminate H0.
+    + assert (Hsn1 : forall t0 st0, In (t0, st0) snap -> knownc (f_c s1) t0 /\ (st0 = Misbehaving -> Mrow (c_db (f_c s1)) t0)).
+      { intros t0 st0 Hin. destruct (Hsn t0 st0 (or_intror Hin)) as [A B]. split; [apply Hkn1, A|]. intros H. apply Hg1, B, H. }
+      destruct (IH s1 s' o HF1 Hsn1 E) as [HF' [Hd' [Hg' Hok']]].
+      split; [exact HF'|]. split; [congruence|]. split; [eapply grows_trans; eassumption|].
+      intros Ho t0 st0 [Heq|Hin].
+      * inversion Heq. subst. apply (recd_grows _ _ _ _ Hg'). destruct (Hok1 eq_refl) as [_ [A B]]. split; assumption.
+      * eapply Hok'; eauto.
+Qed.
+
+Lemma In_fold_due_add l : forall snap (d : list (N * N)) t x,
+  In (t, x) (fold_left (fun d kv => due_add d (fst kv, l)) snap d) <->
+  In (t, x) d \/ (x = l /\ exists st : tower_status, In (t, st) snap).
+Proof.
+  induction snap as [|[k st] snap IH]; intros d t x; cbn [fold_left].
+  - split; [tauto|]. intros [H|[_ [st []]]]. exact H.
+  - rewrite IH. cbn [fst]. unfold due_add. split.
+    + intros [H|[-> [st0 H]]].
+      * destruct (existsb (pairN_eqb (k, l)) d); [left; exact H|]. apply in_app_or in H. destruct H as [H|[H|[]]]; [left; exact H|].
+        inversion H. subst. right. split; [reflexivity|]. exists st. left. reflexivity.
+      * right. split; [reflexivity|]. exists st0. right. exact H.
+    + intros [H|[-> [st0 [H|H]]]].
+      * left. destruct (existsb (pairN_eqb (k, l)) d); [exact H|]. apply in_or_app. left. exact H.
+      * inversion H. subst. left. destruct (existsb (pairN_eqb (t, l)) d) eqn:Ee.
+        -- apply existsb_exists in Ee. destruct Ee as [[a b] [Hin Heq]]. unfold pairN_eqb in Heq. cbn in Heq.
+           apply andb_true_iff in Heq. destruct Heq as [H1 H2]. apply N.eqb_eq in H1, H2. subst. exact Hin.
+        -- apply in_or_app. right. left. reflexivity.
+      * right. split; [reflexivity|]. exists st0. exact H.
+Qed.
+
+Lemma FInv_revocation s l order replies : FInv s -> FInv (fst (f_revocation s l order replies)).
+Proof.
+  intros HF. unfold f_revocation. destruct (poisoned s) eqn:Hp; [exact HF|].
+  set (snap := reorder_towers order (towers_snapshot (f_c s))).
+  assert (Hsn : forall t st, In (t, st) snap -> knownc (f_c s) t /\ (st = Misbehaving -> Mrow (c_db (f_c s)) t)).
+  { intros t st Hin. apply reorder_towers_In, towers_snapshot_In in Hin. destruct HF as [_ [_ [HV _]]]. destruct (HV Hp) as [V1 _].
+    split; [|intros ->; apply V1, Hin]. unfold knownc, amem. unfold stat in Hin. destruct (aget (c_towers (f_c s)) t); [reflexivity|discriminate]. }
+  destruct (rev_loop s l snap replies) as [s1 o] eqn:E.
+  destruct (FInv_rev_loop l replies snap s s1 o HF Hsn E) as [HF1 [Hd1 [Hg1 Hok]]].
+  destruct o as [site|]; cbn [fst]; [exact HF1|].
+  destruct HF1 as [HI [HD [HV HT]]]. split; [exact HI|]. split; [|split; [exact HV|exact HT]].
+  cbn [f_c f_due set_due]. destruct HD as [HDb [U E0]]. split; [exact HDb|]. split; [exact U|].
+  intros t x Hin. apply In_fold_due_add in Hin. destruct Hin as [Hin|[-> [st Hin]]]; [apply E0, Hin|].
+  apply (Hok eq_refl t st Hin).
 Qed.
